@@ -51,6 +51,7 @@ type vStep struct {
 	rm    *robust.Message
 	reply *Replyctx
 	pre   *vPre
+	pend  []vObligation // obligations collected by vA, discharged by vFlush
 }
 
 // commands that dedicated runs single out (parameter "cmdname")
@@ -160,6 +161,7 @@ func verifHarness_C14_step() {
 	if st.reply != nil {
 		vInvariant(st, st.pre)
 	}
+	vFlush(st)
 }
 
 // C12: recipients and sender identity of every outgoing line.
@@ -168,6 +170,7 @@ func verifHarness_C12_step() {
 	if st.reply != nil {
 		vRecipients(st, st.pre)
 	}
+	vFlush(st)
 }
 
 // C13: privileged effects require the privilege.
@@ -176,6 +179,7 @@ func verifHarness_C13_step() {
 	if st.reply != nil {
 		vPrivileges(st, st.pre)
 	}
+	vFlush(st)
 }
 
 // C15 link (3): every produced line is one clean line; stored strings stay clean.
@@ -185,6 +189,7 @@ func verifHarness_C15_step() {
 		vLinesWellFormed(st)
 		vHygiene(st)
 	}
+	vFlush(st)
 }
 
 // C10 (a) and C17 (c): duplicate marker advances; ended sessions leave no trace.
@@ -193,14 +198,15 @@ func verifHarness_C10_step() {
 	if st.reply != nil {
 		vMarkers(st)
 	}
+	vFlush(st)
 }
 
 func verifHarness_C17_step() {
 	st := vDoStep()
 	if st.reply != nil {
 		vEnded(st, st.pre)
-		verifAssert(verifImplies(true, !vLive(st.t.i, st.actor) == st.actor.deleted || !st.actor.deleted), "deleted-actor-is-removed")
 	}
+	vFlush(st)
 }
 
 // C07 (replay half): applying an entry that is already marked as message of
@@ -335,6 +341,7 @@ func verifHarness_C01_step() {
 	st := a
 	if a.reply == nil || b.reply == nil {
 		vA(st, a.reply == nil && b.reply == nil, "both-executions-complete")
+		vFlush(st)
 		return
 	}
 	vA(st, len(a.reply.Messages) == len(b.reply.Messages), "same-number-of-replies")
@@ -345,4 +352,5 @@ func verifHarness_C01_step() {
 		vA(st, verifDeepEq(x.InterestingFor, y.InterestingFor, "nileqempty"), "same-recipients")
 	}
 	vA(st, verifDeepEq(a.t.i, b.t.i, "skip=IRCServer.ServerCreation;nileqempty"), "same-resulting-state")
+	vFlush(st)
 }
